@@ -21,7 +21,7 @@ def _variants(work, failures):
         "MCPingProto": ["ping_var_noreset", "ping_var_close", "ping_var_marker"],
         "MCChanProto": ["chan_var_wake", "chan_var_rearm", "chan_var_droporder", "chan_kf_rendezvous"],
         "MCExecProto": ["exec_var_swap"],
-        "MCSignalProto": ["sig_var_swap", "sig_var_notify", "sig_var_coalesce"],
+        "MCSignalProto": ["sig_var_swap", "sig_var_notify", "sig_var_coalesce", "sig_var_pollstop"],
         "TimerPing": ["tping_var"],
     }
     n = 0
